@@ -12,6 +12,8 @@ structure PD where
   sids : List Nat := []      -- state id of each vertex (same state pointer => same vertex)
 
 structure S where
+  /-- the code under test shows the repaired behaviour of F32 (wrapper = opaque leaf): header `copy wc=fixed` -/
+  fixed : Bool := false
   spaces : List (Nat × Sp) := []
   states : List (Nat × Nat × St) := []     -- sid ↦ (space id, state)
   pd : Option PD := none
@@ -118,13 +120,14 @@ def isWrapper : Sp → Bool
   | .wrapper _ _ => true
   | _ => false
 
-def spaceLine (sp : Sp) : String :=
+def spaceLine (fixed : Bool) (sp : Sp) : String :=
+  let vl := if fixed then valueLocationsF sp else valueLocations sp
   let n := nReals sp
   let vas := (List.range (n + 1)).map (fun i => match addrAtIndex sp i with
     | some a => chainStr a
     | none => "null")
-  s!"ok sig={intsStr (signature sp)} len={serLen sp} dim={dim sp} nreals={(valueLocations sp).length} " ++
-  s!"locs={joinOr ";" ((valueLocations sp).map (fun l => chainStr l.chain ++ ":" ++ toString l.index))} " ++
+  s!"ok sig={intsStr (signature sp)} len={serLen sp} dim={dim sp} nreals={vl.length} " ++
+  s!"locs={joinOr ";" (vl.map (fun l => chainStr l.chain ++ ":" ++ toString l.index))} " ++
   s!"subs={joinOr ";" ((subsMap sp).map (fun e => toString e.1 ++ ":" ++ chainStr e.2))} " ++
   s!"va={";".intercalate vas}"
 
@@ -159,7 +162,7 @@ def step (s : S) (ts : List String) : S × String :=
     match id.toNat?, parseSp rest with
     | some id, some (sp, []) =>
       if isWrapper sp && zeroExt sp then bad
-      else ({ s with spaces := insert s.spaces id sp }, spaceLine sp)
+      else ({ s with spaces := insert s.spaces id sp }, spaceLine s.fixed sp)
     | _, _ => bad
   | "state" :: sid :: spid :: rest =>
     match sid.toNat?, spid.toNat?, takeCounted rest with
@@ -171,7 +174,7 @@ def step (s : S) (ts : List String) : S × String :=
           if fits sp st then
             let img := image sp st
             ({ s with states := insert s.states sid (spid, st) },
-              s!"ok img={hex img} reals={natsStr (copyToReals sp st)} clone={hex (image sp (cloneState sp st))} " ++
+              s!"ok img={hex img} reals={natsStr (if s.fixed then copyToRealsF sp st else copyToReals sp st)} clone={hex (image sp (cloneState sp st))} " ++
               s!"copy={hex (image sp (copyState sp (allocState sp) st))} deser={atomsStr sp (deserialize sp img)}")
           else bad
         | _ => bad
@@ -184,10 +187,11 @@ def step (s : S) (ts : List String) : S × String :=
       | some (spid, st), some rs =>
         match lookup s.spaces spid with
         | some sp =>
-          if rs.length = (valueLocations sp).length && rs.all (· < 18446744073709551616) then
-            let st' := copyFromReals sp st rs
+          let nloc := if s.fixed then (valueLocationsF sp).length else (valueLocations sp).length
+          if rs.length = nloc && rs.all (· < 18446744073709551616) then
+            let st' := if s.fixed then copyFromRealsF sp st rs else copyFromReals sp st rs
             ({ s with states := insert s.states sid (spid, st') },
-              s!"ok atoms={atomsStr sp st'} reals={natsStr (copyToReals sp st')}")
+              s!"ok atoms={atomsStr sp st'} reals={natsStr (if s.fixed then copyToRealsF sp st' else copyToReals sp st')}")
           else bad
         | none => bad
       | _, _ => bad
@@ -199,7 +203,7 @@ def step (s : S) (ts : List String) : S × String :=
       | some (dsp, dst), some (ssp, sst) =>
         match lookup s.spaces dsp, lookup s.spaces ssp with
         | some dS, some sS =>
-          if hasWC dS || hasWC sS then bad
+          if !s.fixed && (hasWC dS || hasWC sS) then bad
           else
             let r := csd dS dst sS sst
             ({ s with states := insert s.states d (dsp, r.1) }, s!"ok res={r.2.code} atoms={atomsStr dS r.1}")
@@ -213,7 +217,7 @@ def step (s : S) (ts : List String) : S × String :=
       | some (dsp, dst), some (ssp, sst) =>
         match lookup s.spaces dsp, lookup s.spaces ssp with
         | some dS, some sS =>
-          if hasWC dS || hasWC sS || isWrapper dS || isWrapper sS then bad
+          if (!s.fixed && (hasWC dS || hasWC sS)) || isWrapper dS || isWrapper sS then bad
           else
             let names := (commonSubspaces dS sS).map Sp.name
             let r := csdNames dS dst sS sst names
@@ -223,6 +227,30 @@ def step (s : S) (ts : List String) : S × String :=
         | _, _ => bad
       | _, _ => bad
     | _, _ => bad
+  | "csdnu" :: d :: x :: rest =>
+    -- the names overload on top-level wrappers as it behaves once `getSubstateAtLocation` unwraps the wrapper's state
+    -- (proposed repair of F105): the copy happens between the wrapped states
+    match d.toNat?, x.toNat?, takeCounted rest with
+    | some d, some x, some (ns, []) =>
+      match lookup s.states d, lookup s.states x, ns.mapM String.toNat? with
+      | some (dsp, dst), some (ssp, sst), some names =>
+        match lookup s.spaces dsp, lookup s.spaces ssp with
+        | some dS, some sS =>
+          let rec unwrapSp : Sp → Sp
+            | .wrapper _ s => unwrapSp s
+            | sp => sp
+          let rec unwrapSt : Sp → St → St
+            | .wrapper _ s, .wrap x => unwrapSt s x
+            | _, st => st
+          let rec rewrap : Sp → St → St
+            | .wrapper _ s, x => .wrap (rewrap s x)
+            | _, x => x
+          let r := csdNames (unwrapSp dS) (unwrapSt dS dst) (unwrapSp sS) (unwrapSt sS sst) names
+          let st' := rewrap dS r.1
+          ({ s with states := insert s.states d (dsp, st') }, s!"ok res={r.2.code} atoms={atomsStr dS st'}")
+        | _, _ => bad
+      | _, _, _ => bad
+    | _, _, _ => bad
   | "csdn" :: d :: x :: rest =>
     match d.toNat?, x.toNat?, takeCounted rest with
     | some d, some x, some (ns, []) =>
@@ -230,7 +258,7 @@ def step (s : S) (ts : List String) : S × String :=
       | some (dsp, dst), some (ssp, sst), some names =>
         match lookup s.spaces dsp, lookup s.spaces ssp with
         | some dS, some sS =>
-          if hasWC dS || hasWC sS || isWrapper dS || isWrapper sS then bad
+          if (!s.fixed && (hasWC dS || hasWC sS)) || isWrapper dS || isWrapper sS then bad
           else
             let r := csdNames dS dst sS sst names
             ({ s with states := insert s.states d (dsp, r.1) }, s!"ok res={r.2.code} atoms={atomsStr dS r.1}")
@@ -363,6 +391,17 @@ def step (s : S) (ts : List String) : S × String :=
         | .error _ => (s, "ok=0")
       | _, _ => bad
     | _, _ => bad
+  | ["pdreload"] =>
+    match s.pd with
+    | some pd =>
+      match lookup s.spaces pd.space with
+      | some sp =>
+        match loadGraph (pdMarker pd) (signature sp) (ctrlSig pd.cdim)
+            (storeGraph (pdMarker pd) (signature sp) (ctrlSig pd.cdim) pd.g) with
+        | .ok g' => (s, s!"ok=1 {dumpGraph g'}")
+        | .error _ => (s, "ok=0")
+      | none => bad
+    | none => bad
   | ["pdcross"] =>
     match s.pd with
     | some pd =>
@@ -379,6 +418,8 @@ def step (s : S) (ts : List String) : S × String :=
 def init (ts : List String) : Option S :=
   match ts with
   | ["copy"] => some {}
+  | ["copy", "wc=ub"] => some {}
+  | ["copy", "wc=fixed"] => some { fixed := true }
   | _ => none
 
 end OmplModel.Driver.CopyDrv
